@@ -197,3 +197,46 @@ Theorem C02_reverse_enter_order_refuted :
     ids_of Cease (do_run cycles fuel p) = [2; 1; 3]%N.
 Proof. exists d3_prog, 10%nat, 100%nat. vm_compute. repeat split. Qed.
 Print Assumptions C02_reverse_enter_order_refuted.
+
+(* ---------- histories of runs: the same for EVERY run of a history ---------- *)
+From Hio Require Import Proofs.SchedHist Proofs.SchedDequeHist.
+
+Theorem C02_before_return_histories :
+  forall (T : Type) (TT : Time T) (cycles fuel : nat) (asyn : bool) (p : prog T) (h : list rerun),
+    W (p_defs p) -> oof (run_hist cycles fuel asyn p h) = false ->
+    (forall j, get_gen (run_hist cycles fuel asyn p h) j = GNew \/ get_gen (run_hist cycles fuel asyn p h) j = GDone) /\
+    (forall j, lives (events j (run_hist cycles fuel asyn p h))) /\
+    exists k t rest, trace (run_hist cycles fuel asyn p h) = {| e_kind := k; e_id := 0%N; e_tyme := t |} :: rest /\
+                     (k = DoReturn \/ k = DoRaise).
+Proof. intros. now apply run_hist_complete. Qed.
+Print Assumptions C02_before_return_histories.
+
+(* the last run of any history (hence every run): final exit() in the reverse of the
+   un-rotated root deque, both invariants in the state handed to it (class W) *)
+Theorem C02_final_exit_histories :
+  forall (T : Type) (TT : Time T) (cycles fuel : nat) (asyn : bool) (p : prog T) (h : list rerun),
+    W (p_defs p) -> oof (run_hist cycles fuel asyn p h) = false ->
+    exists s0 k seg,
+      trace (run_hist cycles fuel asyn p h) = {| e_kind := k; e_id := 0%N; e_tyme := tyme s0 |} :: seg ++ trace s0 /\
+      (k = DoReturn \/ k = DoRaise) /\ Hold s0 [] /\ Hold2 s0 [] /\
+      tops (dids (rev (unrotate (dq s0 0%N)))) seg = dids (rev (unrotate (dq s0 0%N))).
+Proof. intros. now apply run_hist_final_close. Qed.
+Print Assumptions C02_final_exit_histories.
+
+(* ... in reverse ENTER order, every deque sorted by enter position (class WX) *)
+Theorem C02_reverse_enter_order_histories :
+  forall (T : Type) (TT : Time T) (cycles fuel : nat) (asyn : bool) (p : prog T) (h : list rerun),
+    WX (p_defs p) -> oof (run_hist cycles fuel asyn p h) = false ->
+    exists s0 k seg,
+      trace (run_hist cycles fuel asyn p h) = {| e_kind := k; e_id := 0%N; e_tyme := tyme s0 |} :: seg ++ trace s0 /\
+      (k = DoReturn \/ k = DoRaise) /\
+      tops (rev (canon (dq s0 0%N))) seg = rev (canon (dq s0 0%N)) /\
+      (forall x, srt (epos s0) (canon (dq s0 x))).
+Proof. intros. now apply run_hist_exit_order. Qed.
+Print Assumptions C02_reverse_enter_order_histories.
+
+Example C02_histories_example :
+  WXb (p_defs x_prog) = true /\ oof (run_hist 10 100 false x_prog x_hist) = false /\
+  map (fun e => (e_kind e, e_id e)) (firstn 9 (trace (run_hist 10 100 false x_prog x_hist)))
+    = [(DoReturn, 0); (Exit, 2); (Exit, 3); (Cease, 3); (Exit, 4); (Cease, 4); (Cease, 2); (Exit, 6); (Cease, 6)]%N.
+Proof. vm_compute. repeat split. Qed.
